@@ -4,6 +4,8 @@
 From Coq Require Import ZArith QArith List Bool.
 Import ListNotations.
 From Verif Require Import Base.Out Base.StableSort Base.PyValue Base.Decimal.
+(* the scalar library modelled for C18 (not imported: its decimal operations have the names of Base.Decimal's) *)
+From Verif Require Model.Dates Model.StrFuncs.
 Open Scope Z_scope.
 
 (* error kinds *)
@@ -19,7 +21,15 @@ Inductive binop :=
 
 (* a few total, NULL-strict scalar functions (query_env.function wrapper) *)
 Inductive func :=
-| FAbs | FNeg | FSafediv | FLength | FUpper | FLower | FBool | FIntOfDec | FDecOfInt | FSubstr.
+| FAbs | FNeg | FSafediv | FLength | FUpper | FLower | FBool | FIntOfDec | FDecOfInt | FSubstr
+(* the C18 library (Model/Dates.v, Model/StrFuncs.v), one constructor per Python function x arity *)
+| FYear | FMonth | FDay | FYearmonth | FQuarter | FWeekday            (* date -> int / date / str *)
+| FDateAdd | FDateDiff | FDateTrunc | FDatePart | FDateBin             (* date_add date_diff date_trunc date_part date_bin(str, ..) *)
+| FDateYmd | FDate                                                     (* date(y, m, d), date(x) *)
+| FStr | FInt | FDecimal                                               (* str(x), int(x), decimal(x) *)
+| FSplitcomp | FMaxwidth                                               (* splitcomp(s, delim, i), maxwidth(s, n) *)
+| FRoot | FRoot1 | FParent | FLeaf                                     (* root(a, n), root(a), parent(a), leaf(a) *)
+| FRoundInt | FRoundInt1 | FRoundDec | FRoundDec1.                     (* round(int, n), round(int), round(Decimal, n), round(Decimal) *)
 
 Inductive enode :=
 | EConst (v : value)
@@ -136,6 +146,15 @@ Definition py_substr (s : list Z) (a b : Z) : list Z :=
   let a' := clipi len a in let b' := clipi len b in
   firstn (Z.to_nat (b' - a')) (skipn (Z.to_nat a') s).
 
+(* Results of the C18 library: its exception kinds (Dates.v: 1 ValueError, 2 OverflowError, 3 IndexError,
+   4 ZeroDivisionError, 5 TypeError, 6 InvalidOperation, 9 fuel) are kept apart from this file's kinds
+   by an offset; a special Decimal (Infinity / NaN), which [value] cannot hold, is the kind [Unmodelled]. *)
+Definition LibError : Z := 100.
+Definition Unmodelled : Z := 99.
+Definition lib (v : value) : value := match v with VErr k => VErr (LibError + k) | _ => v end.
+Definition lib_x (x : StrFuncs.xval) : value :=
+  match x with StrFuncs.XV v => lib v | StrFuncs.XSpec _ _ => VErr Unmodelled end.
+
 Definition apply_func (f : func) (vs : list value) : value :=
   match f, vs with
   | FAbs, [VDec d] => VDec (dec_abs d)
@@ -152,6 +171,33 @@ Definition apply_func (f : func) (vs : list value) : value :=
   | FIntOfDec, [VDec d] => VInt (dec_to_Z d)
   | FDecOfInt, [VInt z] => VDec (dec_of_Z z)
   | FSubstr, [VStr s; VInt a; VInt b] => VStr (py_substr s a b)
+  (* the C18 library: every clause calls the model function the C18 theorems are stated over *)
+  | FYear, [VDate o] => lib (Dates.f_year o)
+  | FMonth, [VDate o] => lib (Dates.f_month o)
+  | FDay, [VDate o] => lib (Dates.f_day o)
+  | FYearmonth, [VDate o] => lib (Dates.f_yearmonth o)
+  | FQuarter, [VDate o] => lib (Dates.f_quarter o)
+  | FWeekday, [VDate o] => lib (Dates.f_weekday o)
+  | FDateAdd, [VDate o; VInt n] => lib (Dates.date_add o n)
+  | FDateDiff, [VDate x; VDate y] => lib (Dates.date_diff x y)
+  | FDateTrunc, [VStr fld; VDate o] => lib (Dates.date_trunc fld o)
+  | FDatePart, [VStr fld; VDate o] => lib (Dates.date_part fld o)
+  | FDateBin, [VStr stride; VDate source; VDate origin] => lib (Dates.date_bin stride source origin)
+  | FDateYmd, [VInt y; VInt m; VInt d] => lib (StrFuncs.cast_date3 y m d)
+  | FDate, [v] => lib_x (StrFuncs.cast_date (StrFuncs.XV v))
+  | FStr, [v] => lib_x (StrFuncs.cast_str (StrFuncs.XV v))
+  | FInt, [v] => lib_x (StrFuncs.cast_int (StrFuncs.XV v))
+  | FDecimal, [v] => lib_x (StrFuncs.cast_decimal (StrFuncs.XV v))
+  | FSplitcomp, [VStr s; VStr delim; VInt i] => lib (StrFuncs.f_splitcomp s delim i)
+  | FMaxwidth, [VStr s; VInt n] => lib (StrFuncs.f_maxwidth s n)
+  | FRoot, [VStr a; VInt n] => lib (StrFuncs.f_root a n)
+  | FRoot1, [VStr a] => lib (StrFuncs.f_root a 1)
+  | FParent, [VStr a] => lib (StrFuncs.f_parent a)
+  | FLeaf, [VStr a] => lib (StrFuncs.f_leaf a)
+  | FRoundInt, [VInt z; VInt n] => lib (StrFuncs.f_round_int z n)
+  | FRoundInt1, [VInt z] => lib (StrFuncs.f_round_int z 0)
+  | FRoundDec, [VDec d; VInt n] => lib (StrFuncs.f_round_dec d n)
+  | FRoundDec1, [VDec d] => lib (StrFuncs.f_round_dec d 0)
   | _, _ => VErr TypeError
   end.
 
